@@ -3,6 +3,7 @@ CONSTANTS
   Keys = {"k1", "k2"}
   Algs = {"ES256"}
   MaxInst = 2
-INVARIANTS NoForgery Binding EmittedTokensConform GatesHold
+INVARIANTS NoForgery Binding
+PROPERTIES EveryStepPost
 VIEW PView
 CHECK_DEADLOCK FALSE
